@@ -27,7 +27,8 @@ Inductive jwecase :=
 | CDecJsonSel (t : otable) (algs : option (list str)) (reg : option registry) (data : pv) (keys : list key)
               (sender : option key) (expect : res (bytes * pv))
 (* re-encryption of an existing message object (prior base64_segments) *)
-| CEncJsonPrior (t : otable) (g : registry) (prior : list (str * bytes)) (o : eobj) (d : edraw) (expect : res pv).
+| CEncJsonPrior (t : otable) (g : registry) (prior : list (str * bytes)) (es : list ephstate) (o : eobj) (d : edraw)
+                (expect : res pv).
 
 Definition nokey : key := {| k_kty := []; k_crv := []; k_priv := false; k_id := [] |}.
 
@@ -50,7 +51,7 @@ Definition jwe_run (c : jwecase) : jweout :=
   | CEncJsonK t g o d ks _ => OP (encrypt_json_k (table_oracles t) g o d ks)
   | CDecCompactSel t a r v k s _ => OD (dec_obs (decrypt_compact (table_oracles t) (jwe_sel a r) v k s))
   | CDecJsonSel t a r d ks s _ => OD (dec_obs (decrypt_json (table_oracles t) (jwe_sel a r) d ks nokey s))
-  | CEncJsonPrior t g p o d _ => OP (encrypt_json_obj (table_oracles t) p g o d)
+  | CEncJsonPrior t g p es o d _ => OP (encrypt_json_obj (table_oracles t) p es g o d)
   end.
 
 Definition jwe_check (c : jwecase) : bool :=
@@ -65,7 +66,7 @@ Definition jwe_check (c : jwecase) : bool :=
   | CEncJsonK _ _ _ _ _ e, OP r => res_eqb pv_eqb r e
   | CDecCompactSel _ _ _ _ _ _ e, OD r => res_eqb pair_eqb r e
   | CDecJsonSel _ _ _ _ _ _ e, OD r => res_eqb pair_eqb r e
-  | CEncJsonPrior _ _ _ _ _ e, OP r => res_eqb pv_eqb r e
+  | CEncJsonPrior _ _ _ _ _ _ e, OP r => res_eqb pv_eqb r e
   | _, _ => false
   end.
 
@@ -82,3 +83,5 @@ Definition mk_eobj (s : ser) (p : dict) (u : pv) (a : option bytes) (m : bytes) 
 Definition mk_rdraw (a b : bytes) : rdraw := {| d_kwiv := a; d_p2s := b |}.
 Definition mk_edraw (c i : bytes) (l : list rdraw) : edraw := {| d_cek := c; d_civ := i; d_rec := l |}.
 Definition mk_kkey (k : key) (kid use : pv) : kkey := {| kk_key := k; kk_kid := kid; kk_use := use |}.
+Definition mk_ephstate (c : option (key * pv)) (g : bool) (d : option (key * pv)) : ephstate :=
+  {| es_cur := c; es_generated := g; es_draw := d |}.
